@@ -90,6 +90,18 @@ CLAIMED = {
         "contract-based deductive verification: own VC generator over the real source with uninterpreted library calls, callee contracts",
         "DESIGN.md §3 C12",
     ),
+    "C10": (
+        "proof",
+        "Proved (35 obligations): integer seed == PRNGKey(seed) (same three keys, three children of one split, other types rejected); "
+        "set_initial_values defines its result on both branches (replicated / per-chain states as given); PRNG-key ownership - engine draws "
+        "consume the engine key once, install child 0 and hand out children 1..n; scan_f, KernelSequence (C07) and RW/MH/IWLS transitions never "
+        "consume a key twice and give proposal and accept draws different children; build() wires update_state(jittered position, supplied "
+        "states) with per-key, per-chain jitter keys and does not modify the builder's stored state. Bit-identical reruns, distinctness of key "
+        "VALUES, chain independence and the first-sample law end to end are bounded (native runs), as stated in DESIGN.md.",
+        "A-RNG (threefry split yields distinct keys for distinct paths), A-VMAP, XLA determinism; slices of build().",
+        "contract-based deductive verification: own VC generator over the real source, ghost ownership discipline for PRNG keys, frame conditions",
+        "DESIGN.md §3 C10",
+    ),
 }
 
 NOT_APPLICABLE = {
